@@ -5,11 +5,17 @@
 //   to_string    fn=i32|u32|i64|u64|ill|ull cap= v=   etl::to_string<cap> | std::to_string
 //   from_chars   ty= s=[..] base=             etl::from_chars          | std::from_chars
 //   to_integer   ty= s=[..] base= ws=0|1      strings::to_integer      | (skip blanks) std::from_chars
+//   to_integer_nc ty= s=[..] base= ws=0|1     the same with check_overflow = false; the reference prints `*` when
+//                                             the value is not representable (outside the option's contract)
 //   cstr         fn=strtol|strtoll|strtoul|strtoull|atoi|atol|atoll s=[..] base=   | glibc
 //   sto          fn=stoi|stol|stoll|stoul|stoull s=[..] base=                        | libstdc++
 //   round_trip   ty= v= base=                 to_chars then from_chars | same with std
 //   to_chars_all ty= v=                       bases 2..36: exact fit, one byte less, round trip
 //
+// ty: i8 u8 i16 u16 i32 u32 i64 u64 = signed char .. unsigned long; c8 = char, ill/ull = (unsigned) long long,
+// c8u = char8_t, c16 = char16_t, c32 = char32_t, wc = wchar_t.  The character types are integral types that
+// the standard functions do not accept: the reference runs on the standard integer type of the same width and
+// signedness (`ref_t`).
 // `v` of an unsigned 64-bit type is passed as its two's complement signed reading.
 // Output buffers: first a buffer with 8 guard bytes on both sides (a clobbered guard prints `oob`
 // and nothing else is run), then an exact-size heap block (ASan red zones on both sides).
@@ -83,6 +89,15 @@ auto with_buffer(std::size_t len, F f) -> std::string
     return r1 == r2 ? r1 : r1 + "!=" + r2;
 }
 
+// the standard integer type std::to_chars / std::from_chars are called with
+template <typename T> struct ref_type { using type = T; };
+template <> struct ref_type<char8_t> { using type = unsigned char; };
+template <> struct ref_type<char16_t> { using type = unsigned short; };
+template <> struct ref_type<char32_t> { using type = unsigned; };
+template <> struct ref_type<wchar_t> { using type = int; };
+template <typename T> using ref_t = typename ref_type<T>::type;
+static_assert(sizeof(wchar_t) == sizeof(int) and std::is_signed_v<wchar_t>);
+
 template <typename T>
 auto value_of(Line const& l) -> T
 {
@@ -102,7 +117,7 @@ auto op_to_chars(Line const& l) -> std::string
         return std::string("ec?");
     });
     auto s = with_buffer(len, [&](char* first, std::size_t n) {
-        auto r = std::to_chars(first, first + n, v, base);
+        auto r = std::to_chars(first, first + n, static_cast<ref_t<T>>(v), base);
         if (r.ec == std::errc{}) return "ok(" + std::to_string(r.ptr - first) + "," + bytes(first, n) + ")";
         return "too_large(" + std::to_string(r.ptr - first) + ")";
     });
@@ -126,7 +141,7 @@ auto op_from_integer_t(Line const& l) -> std::string
     auto s = with_buffer(len, [&](char* first, std::size_t n) {
         if (Term and n == 0) return std::string("overflow");
         auto room = Term ? n - 1 : n;
-        auto r    = std::to_chars(first, first + room, v, base);
+        auto r    = std::to_chars(first, first + room, static_cast<ref_t<T>>(v), base);
         if (r.ec != std::errc{}) return std::string("overflow");
         if (Term) *r.ptr = '\0';
         return "ok(" + std::to_string(r.ptr - first) + "," + bytes(first, n) + ")";
@@ -156,21 +171,21 @@ auto op_from_chars(Line const& l) -> std::string
     auto const base = static_cast<int>(l.i("base"));
     T v             = T(77);
     auto r          = etl::from_chars(sb.p, sb.p + sb.n, v, base);
-    T w             = T(77);
+    auto w          = ref_t<T>(77);
     auto q          = std::from_chars(sb.p, sb.p + sb.n, w, base);
     auto cls_e      = r.ec == etl::errc{} ? "ok" : r.ec == etl::errc::invalid_argument ? "invalid" : r.ec == etl::errc::result_out_of_range ? "range" : "ec?";
     auto cls_s      = q.ec == std::errc{} ? "ok" : q.ec == std::errc::invalid_argument ? "invalid" : "range";
-    return out(fmt_fc<T>(cls_e, v, r.ptr - sb.p), fmt_fc<T>(cls_s, w, q.ptr - sb.p));
+    return out(fmt_fc<T>(cls_e, v, r.ptr - sb.p), fmt_fc<ref_t<T>>(cls_s, w, q.ptr - sb.p));
 }
 
 auto c_isspace(char c) -> bool { return c == ' ' or (c >= '\t' and c <= '\r'); }
 
-template <typename T, bool Ws>
+template <typename T, bool Ws, bool Check = true>
 auto op_to_integer_t(Line const& l) -> std::string
 {
     proto::heap_buf<char> sb(l.list("s"));
     auto const base    = static_cast<int>(l.i("base"));
-    constexpr auto opt = etl::strings::to_integer_options{.skip_whitespace = Ws, .check_overflow = true};
+    constexpr auto opt = etl::strings::to_integer_options{.skip_whitespace = Ws, .check_overflow = Check};
     auto r             = etl::strings::to_integer<T, opt>(etl::string_view{sb.p, sb.n}, static_cast<T>(base));
     std::string e;
     if (r.error == etl::strings::to_integer_error::none) {
@@ -184,7 +199,7 @@ auto op_to_integer_t(Line const& l) -> std::string
     if (Ws) {
         while (k < sb.n and c_isspace(sb.p[k])) ++k;
     }
-    T w    = T(0);
+    auto w = ref_t<T>(0);
     auto q = std::from_chars(sb.p + k, sb.p + sb.n, w, base);
     std::string s;
     if (q.ec == std::errc{}) {
@@ -192,7 +207,7 @@ auto op_to_integer_t(Line const& l) -> std::string
     } else if (q.ec == std::errc::invalid_argument) {
         s = "invalid(0)";
     } else {
-        s = "overflow";
+        s = Check ? "overflow" : "*";
     }
     return out(e, s);
 }
@@ -201,6 +216,12 @@ template <typename T>
 auto op_to_integer(Line const& l) -> std::string
 {
     return l.i("ws") != 0 ? op_to_integer_t<T, true>(l) : op_to_integer_t<T, false>(l);
+}
+
+template <typename T>
+auto op_to_integer_nc(Line const& l) -> std::string
+{
+    return l.i("ws") != 0 ? op_to_integer_t<T, true, false>(l) : op_to_integer_t<T, false, false>(l);
 }
 
 template <typename T>
@@ -217,8 +238,8 @@ auto op_round_trip(Line const& l) -> std::string
         auto q = etl::from_chars(static_cast<char const*>(b1), r.ptr, back, base);
         e      = std::string(q.ec == etl::errc{} ? "ok" : "err") + "(" + num(back) + "," + proto::fmt_bool(q.ptr == r.ptr) + ")";
     }
-    if (auto r = std::to_chars(b2, b2 + 72, v, base); r.ec == std::errc{}) {
-        T back = T(77);
+    if (auto r = std::to_chars(b2, b2 + 72, static_cast<ref_t<T>>(v), base); r.ec == std::errc{}) {
+        auto back = ref_t<T>(77);
         auto q = std::from_chars(static_cast<char const*>(b2), static_cast<char const*>(r.ptr), back, base);
         s      = std::string(q.ec == std::errc{} ? "ok" : "err") + "(" + num(back) + "," + proto::fmt_bool(q.ptr == r.ptr) + ")";
     }
@@ -236,7 +257,7 @@ auto op_to_chars_all(Line const& l) -> std::string
     std::string s;
     for (int base = 2; base <= 36; ++base) {
         char ref[72];
-        auto rr        = std::to_chars(ref, ref + 72, v, base);
+        auto rr        = std::to_chars(ref, ref + 72, static_cast<ref_t<T>>(v), base);
         auto const len = static_cast<std::size_t>(rr.ptr - ref);
         if (base > 2) { e += ","; s += ","; }
         {
@@ -265,11 +286,11 @@ auto op_to_chars_all(Line const& l) -> std::string
         {
             s += std::string(ref, len);
             char small[72];
-            auto r2 = std::to_chars(small, small + len - 1, v, base);
+            auto r2 = std::to_chars(small, small + len - 1, static_cast<ref_t<T>>(v), base);
             if (r2.ec == std::errc{}) s += "<";
-            T back = T(77);
-            auto q = std::from_chars(static_cast<char const*>(ref), static_cast<char const*>(rr.ptr), back, base);
-            if (not(q.ec == std::errc{} and back == v and q.ptr == rr.ptr)) s += "!";
+            auto back = ref_t<T>(77);
+            auto q    = std::from_chars(static_cast<char const*>(ref), static_cast<char const*>(rr.ptr), back, base);
+            if (not(q.ec == std::errc{} and back == static_cast<ref_t<T>>(v) and q.ptr == rr.ptr)) s += "!";
         }
     }
     return out(e, s);
@@ -379,6 +400,13 @@ auto step(Line const& l) -> std::string
         if (ty == "u32") return OP<unsigned>(l);                                                                       \
         if (ty == "i64") return OP<long>(l);                                                                           \
         if (ty == "u64") return OP<unsigned long>(l);                                                                  \
+        if (ty == "c8") return OP<char>(l);                                                                            \
+        if (ty == "ill") return OP<long long>(l);                                                                      \
+        if (ty == "ull") return OP<unsigned long long>(l);                                                             \
+        if (ty == "c8u") return OP<char8_t>(l);                                                                        \
+        if (ty == "c16") return OP<char16_t>(l);                                                                       \
+        if (ty == "c32") return OP<char32_t>(l);                                                                       \
+        if (ty == "wc") return OP<wchar_t>(l);                                                                         \
         return std::string("bad-op\tbad-op");                                                                          \
     } while (false)
 
@@ -386,6 +414,7 @@ auto step(Line const& l) -> std::string
     if (l.op == "from_integer") BY_TYPE(op_from_integer);
     if (l.op == "from_chars") BY_TYPE(op_from_chars);
     if (l.op == "to_integer") BY_TYPE(op_to_integer);
+    if (l.op == "to_integer_nc") BY_TYPE(op_to_integer_nc);
     if (l.op == "round_trip") BY_TYPE(op_round_trip);
     if (l.op == "to_chars_all") BY_TYPE(op_to_chars_all);
 #undef BY_TYPE
